@@ -70,6 +70,38 @@ def run_scenario(scn, strat, hooks=None, trace=False, pilot=False, wall_timeout=
     return o
 
 
+def chained_preemptions(scn, stages, setup=None, prefer_role=None):
+    """Targeted enumeration of k forced switches.  stages: list of dicts {"site": predicate(site), "from":
+    role of the running thread, "to": role of the thread switched to, "limit": most candidates taken per
+    prefix, "stride": take every n-th}.  Stage i looks, in the pilot of the run forced so far, at the yield
+    points after the previous switch.  Yields switch dicts."""
+
+    def rec(prefix, after, i):
+        o = run_scenario(scn, {"kind": "forced", "switches": prefix} if prefix else {"kind": "np"}, pilot=True, setup=setup)
+        pilot = o.pilot
+        roles = {t.tid: t.role for t in o.world.sched.threads}
+        finish(o)
+        st = stages[i]
+        cands = []
+        for step, tids, site, cur in pilot:
+            if step <= after or roles.get(cur) != st["from"] or not st["site"](site):
+                continue
+            for tid in tids:
+                if roles.get(tid) == st["to"]:
+                    cands.append((step, tid))
+                    break
+        cands = cands[:: st.get("stride", 1)][: st.get("limit", 20)]
+        for step, tid in cands:
+            sw = dict(prefix)
+            sw[str(step)] = tid
+            if i + 1 == len(stages):
+                yield {"kind": "forced", "switches": sw, "prefer": list(pref)}
+            else:
+                yield from rec(sw, step, i + 1)
+
+    yield from rec({}, -1, 0)
+
+
 def _fkey(k):
     """fault keys are stored as 'cid:op:n' strings in scenarios"""
     if isinstance(k, tuple):
